@@ -109,6 +109,17 @@ def run_unit(unit, rng, ctx):
         i, tau = np.unravel_index(np.argmax(dev), dev.shape)
         ctx.check(float(dev.max()) <= 1e-9 * scale, f'{what}: msd[atom {i}, lag {tau}]={got[i, tau]!r} but the time-origin average of |r(t+tau)-r(t)|^2 is {want[i, tau]!r}', {'matrix': m, 'U_atom': U[:, i]})
         ctx.check(float(np.abs(got[:, 0]).max()) <= 1e-9 * scale, f'{what}: msd at lag 0 is {got[:, 0]}, not 0')
+    if unit['i'] % 2 == 0 and not huge and ok_shape:
+        # a second run of the same shape (atoms x frames) is analysed while the first result is still in use: the
+        # first result is not altered, the second is that of its own motion
+        kept = traj.mean_squared_displacement()
+        U_b = gen.random_walk(rng, T, N, max_step=0.3)
+        twin = gen.make_trajectory(m, list(traj.species), U_b - np.floor(U_b), time_step=dt)
+        got_b = np.asarray(twin.mean_squared_displacement())
+        want_b = models.msd_model((U_b - U_b[:1]) @ m)
+        ctx.check(got_b.shape == want_b.shape and float(np.abs(got_b - want_b).max()) <= 1e-9 * max(float(want_b.max()), 1e-12), f'{what}: MSD of a second run of the same shape is not its own time-origin average', {'matrix': m})
+        ctx.check(float(np.abs(np.asarray(kept) - want).max()) <= 1e-9 * scale, f'{what}: the MSD array returned for the first run changed when a second run of the same shape ({N} atoms x {T} frames) was analysed', {'matrix': m})
+        ctx.count('second_runs_of_the_same_shape')
     dist = np.asarray(traj.distances_from_base_position())
     wd = np.linalg.norm(cart, axis=2).T
     ctx.check(dist.shape == wd.shape and float(np.abs(dist - wd).max()) <= 1e-9 * max(1.0, wd.max()), f'{what}: distance from the starting position differs from the Cartesian length of the unwrapped displacement', {'matrix': m})
